@@ -46,7 +46,9 @@ UpTo(S, n) == UNION {SeqOver(S, k) : k \in 1 .. n}
 (* ------------------------------- Shadow (C03) ------------------------------ *)
 (* t0 = condition register; fast producer (li) or slow producer (lw from 0(a0)) *)
 ShadowIns == { Li("t2", 9), Addi("t1", "t1", 1), I("mul", "t1", "t1", "t1", 0, 0), Sw("t1", "a0", 8), Sb("t1", "a0", 13),
-               Lw("t2", "a0", 4), Lw("t2", "a1", 0), I("jal", "ra", "zero", "zero", 0, 1), Sw("t1", "a1", 4), Sh("t1", "a0", 18) }
+               Lw("t2", "a0", 4), Lw("t2", "a1", 0), I("jal", "ra", "zero", "zero", 0, 1), Sw("t1", "a1", 4), Sh("t1", "a0", 18),
+               \* instructions that raise a defined error if (and only if) they are executed
+               I("div", "t2", "t1", "zero", 0, 0), I("rem", "t2", "t1", "t3", 0, 0), I("beq", "zero", "zero", "zero", 0, -1) }
 ShadowBranches == { I("beqz", "zero", "t0", "zero", 0, 0), I("bnez", "zero", "t0", "zero", 0, 0),
                     I("beq", "zero", "t0", "t3", 0, 0), I("bne", "zero", "t0", "t3", 0, 0),
                     I("blt", "zero", "t0", "t3", 0, 0), I("bge", "zero", "t0", "t3", 0, 0),
